@@ -196,7 +196,59 @@ func runAnimEncoder(id, mode string, in animEncInput) (file []byte, line tvEncLi
 		}
 		line.Frames = append(line.Frames, tf)
 	}
+	// the package's own player must show the same pictures (the specification plays the frame list in TVAnimEnc; this
+	// is the cross-check with animation.AnimDecoder): consecutive equal pictures collapsed on both sides
+	if d, derr := animation.NewAnimDecoder(a); derr != nil {
+		return file, line, fmt.Errorf("NewAnimDecoder on the written file: %w", derr)
+	} else {
+		var shown []*image.NRGBA
+		for d.HasNext() {
+			fr, _, err := d.NextFrame()
+			if err != nil {
+				return file, line, fmt.Errorf("playing the written file with AnimDecoder: %w", err)
+			}
+			if len(shown) == 0 || !samePicture(shown[len(shown)-1], fr, mode) {
+				shown = append(shown, fr)
+			}
+		}
+		var want []*image.NRGBA
+		for _, p := range in.Pics {
+			c := padToCanvas(p, in.CW, in.CH)
+			if len(want) == 0 || !samePicture(want[len(want)-1], c, mode) {
+				want = append(want, c)
+			}
+		}
+		if len(shown) != len(want) {
+			return file, line, fmt.Errorf("played with the package's AnimDecoder the file shows %d distinct pictures in a row, %d were added", len(shown), len(want))
+		}
+		for i := range want {
+			if !samePicture(shown[i], want[i], mode) {
+				return file, line, fmt.Errorf("played with the package's AnimDecoder, picture %d of the file is not the picture that was added", i+1)
+			}
+		}
+	}
 	return file, line, nil
+}
+
+// samePicture compares two canvases the way the property of the mode does: "exact" = all pixels, fully transparent
+// ones equal whatever their colour; "alpha" = the alpha planes.
+func samePicture(a, b *image.NRGBA, mode string) bool {
+	if a.Bounds().Dx() != b.Bounds().Dx() || a.Bounds().Dy() != b.Bounds().Dy() {
+		return false
+	}
+	w, h := a.Bounds().Dx(), a.Bounds().Dy()
+	for y := 0; y < h; y++ {
+		for x := 0; x < w; x++ {
+			p, q := a.NRGBAAt(a.Bounds().Min.X+x, a.Bounds().Min.Y+y), b.NRGBAAt(b.Bounds().Min.X+x, b.Bounds().Min.Y+y)
+			if p.A != q.A {
+				return false
+			}
+			if mode == "exact" && p.A != 0 && p != q {
+				return false
+			}
+		}
+	}
+	return true
 }
 
 func tokensToPic(cw, ch int, toks []int) *image.NRGBA {
